@@ -578,6 +578,23 @@ def sp_printable(ex, e, st):
     return Val(mk_b(ok), 'bool')
 
 
+def sp_uniprintable(ex, e, st):
+    # uniprintable(ch): a non-ASCII character the emitter may write raw when allow_unicode is on (YAML printable, not the BOM)
+    v = ex.ev(e.args[0], st)
+    c = z3.StrToCode(sv(v.t))
+    from .symex import squash_char as q
+    ok = z3.And(z3.Or(c == 0x85, z3.And(c >= 0xA0, c <= 0xD7FF), z3.And(c >= 0xE000, c <= 0xFFFD), z3.And(c >= q(0x10000), c < q(0x10FFFF))), c != 0xFEFF)
+    return Val(mk_b(ok), 'bool')
+
+
+NOBREAKS = z3.Function('str_nobreaks', z3.StringSort(), z3.BoolSort())     # the text contains no line break character (\\n, NEL, LS, PS)
+
+
+def sp_nobreaks(ex, e, st):
+    v = ex.ev(e.args[0], st)
+    return Val(mk_b(NOBREAKS(sv(v.t))), 'bool')
+
+
 def sp_prefix_of(ex, e, st):
     a = ex.ev(e.args[0], st)
     b = ex.ev(e.args[1], st)
@@ -593,7 +610,7 @@ def sp_seq_contains(ex, e, st):
     return Val(mk_b(z3.Contains(z3.Extract(a, lo, z3.Length(a) - lo), z3.Unit(x.t))), 'bool')
 
 
-SPEC_FUNCS.update({'printable': sp_printable, 'sortable_keys': sp_sortable_keys, 'prefix_of': sp_prefix_of, 'seq_contains': sp_seq_contains})
+SPEC_FUNCS.update({'nobreaks': sp_nobreaks, 'uniprintable': sp_uniprintable, 'printable': sp_printable, 'sortable_keys': sp_sortable_keys, 'prefix_of': sp_prefix_of, 'seq_contains': sp_seq_contains})
 
 
 def b_next(ex, e, st):
